@@ -56,7 +56,7 @@ T_LOG = "logging calls are effect-free; isEnabledForTrace() is an unconstrained 
 SEND_FUNCS = [A + "_mask", A + "ABNF.mask", A + "ABNF._get_masked", A + "ABNF.format", A + "ABNF.create_frame",
               SK + "send", K + "WebSocket._send", K + "WebSocket.send_frame", K + "WebSocket.send", K + "WebSocket.ping",
               K + "WebSocket.pong", K + "WebSocket.send_close", K + "WebSocket.send_binary", K + "WebSocket.send_text",
-              K + "WebSocket.send_bytes", K + "WebSocket.set_mask_key"]
+              K + "WebSocket.send_bytes", K + "WebSocket.set_mask_key", K + "WebSocket.__init__"]
 RECV_FUNCS = [A + "frame_buffer.recv_strict", A + "frame_buffer.recv_frame", A + "ABNF.validate", A + "ABNF.mask", A + "_mask",
               SK + "recv", K + "WebSocket._recv", K + "WebSocket.recv_data_frame", K + "WebSocket.recv",
               U + "validate_utf8", U + "_validate_utf8"]
@@ -84,7 +84,7 @@ PROPS = {
                      "post-condition is a function of (rx, fstart, object state) only"],
         not_decided=["the EAGAIN/select branch of _socket.recv returning None is reported as connection-closed (as written)"]),
     "C04": dict(
-        functions=[K + "WebSocket.recv_data_frame", K + "WebSocket.recv", A + "frame_buffer.recv_frame", A + "ABNF.validate"], lemmas=[],
+        functions=[K + "WebSocket.recv_data_frame", K + "WebSocket.recv", A + "frame_buffer.recv_frame", A + "ABNF.validate", K + "WebSocket.__init__"], lemmas=[],
         trusted_base=[T_TRANSPORT, "spec fold over accepted data frames (recv.fold_step)"],
         assumptions=["continuous_frame.validate/add/is_fire/extract are verified inlined into recv_data_frame (no separate contract)"],
         not_decided=[]),
@@ -95,7 +95,7 @@ PROPS = {
         assumptions=[], not_decided=[]),
     "C06": dict(
         functions=[U + "_validate_utf8", U + "validate_utf8", A + "ABNF.validate", K + "WebSocket.recv_data_frame", K + "WebSocket.recv",
-                   A + "frame_buffer.recv_frame"],
+                   A + "frame_buffer.recv_frame", K + "WebSocket.__init__"],
         lemmas=["lemma:utf8.trap_absorbing"],
         trusted_base=["spec automaton generated from Unicode 15 Table 3-7 (contracts/spec.py TABLE_3_7)",
                       "induction scheme behind the trap-absorption axiom (its step lemma L-TRAP is discharged)",
@@ -120,6 +120,7 @@ PROPS = {
     "C13": dict(
         functions=[PA + "WebSocketApp._callback", PA + RFN + "read", D_ + "Dispatcher.read", D_ + "SSLDispatcher.read", D_ + "SSLDispatcher.select",
                    PA + "WebSocketApp.send", PA + "WebSocketApp.send_text", PA + "WebSocketApp.send_bytes", K + "WebSocket._recv",
+                   PA + "WebSocketApp.__init__", PA + "WebSocketApp.create_dispatcher",
                    A + "frame_buffer.recv_frame", A + "frame_buffer.recv_strict", K + "WebSocket.recv_data_frame", SETSOCK + "@@reconnect=on,external"],
         functions_thorough=[SETSOCK],
         lemmas=[], bounded=[appsim.bounded("C13")], trusted_base=[T_TRANSPORT, T_CB, T_SEL],
@@ -128,7 +129,7 @@ PROPS = {
     "C14": dict(
         functions=[PA + RFN + "teardown", PA + RFN + "read", PA + RFN + "handleDisconnect", PA + "WebSocketApp.run_forever",
                    PA + "WebSocketApp._get_close_args", PA + "WebSocketApp._stop_ping_thread", PA + "WebSocketApp._callback", K + "WebSocket.close", SETSOCK + "@@reconnect=off,external",
-                   D_ + "Dispatcher.read", D_ + "SSLDispatcher.read", PA + "WebSocketApp.close"],
+                   D_ + "Dispatcher.read", D_ + "SSLDispatcher.read", PA + "WebSocketApp.close", PA + "WebSocketApp.__init__"],
         functions_thorough=[SETSOCK, D_ + "DispatcherBase.reconnect"],
         lemmas=[], bounded=[appsim.bounded("C14")], trusted_base=[T_TRANSPORT, T_CB, T_SEL, T_THREAD],
         assumptions=[BOUNDED_COMPOSITION + " (here: the try/except/finally of run_forever reaches teardown on every exit path; the return value)"],
@@ -147,7 +148,7 @@ PROPS = {
     "C16": dict(
         functions=[PA + "WebSocketApp.run_forever@@reconnect=off,external", PA + RFN + "check", PA + "WebSocketApp._send_ping", PA + "WebSocketApp._start_ping_thread",
                    PA + "WebSocketApp._stop_ping_thread", D_ + "Dispatcher.read", D_ + "SSLDispatcher.read", D_ + "SSLDispatcher.select", PA + RFN + "read", K + "WebSocket.ping",
-                   PA + RFN + "handleDisconnect", PA + RFN + "teardown"],
+                   PA + RFN + "handleDisconnect", PA + RFN + "teardown", PA + "WebSocketApp.create_dispatcher"],
         lemmas=["lemma:timing"], bounded=[appsim.bounded("C16")],
         trusted_base=[T_THREAD, T_SEL, "time.time() is a non-decreasing clock",
                       "scheduling assumptions of the timing lemmas: S1 select(T) returns within T, S2 processing a readable frame takes no time, "
